@@ -184,7 +184,7 @@ class Workspace:
                 raise Inconclusive("source file %s no longer exists" % append_to)
             modname = "__verif_" + re.sub(r"[^A-Za-z0-9]", "_", os.path.basename(src)[:-3]).lower()
             with open(tgt, "a") as f:
-                f.write('\n#[cfg(kani)] #[path = "%s"] mod %s;\n' % (dst, modname))
+                f.write('\n#[cfg(kani)] #[path = "%s"] pub(crate) mod %s;\n' % (dst, modname))
             # `//@@ crate-feature: <name>`: an unstable library feature the harness itself needs (to
             # name a std type in a stub signature); enabled under cfg(kani) only, at the crate root
             for feat in re.findall(r"^//@@\s*crate-feature:\s*(\w+)", open(src).read(), re.M):
@@ -520,7 +520,9 @@ def collect_harnesses(prop, ws):
             uncovered += info.get("uncovered", [])
         except Exception:
             pass
-    paths = sorted(glob.glob(os.path.join(HARNESS_DIR, prop + "__*.rs"))) + \
+    # COMMON__*.rs: support code (stubs) shared between properties, installed for every run
+    paths = sorted(glob.glob(os.path.join(HARNESS_DIR, "COMMON__*.rs"))) + \
+        sorted(glob.glob(os.path.join(HARNESS_DIR, prop + "__*.rs"))) + \
         sorted(glob.glob(os.path.join(gen_out, prop + "__*.rs")))
     for p in paths:
         append_to, hs = parse_harness_file(p)
